@@ -518,23 +518,41 @@ Definition put_aids (l : list action) : val := VL (map (fun a => vN (aid a)) l).
    answer = [ [outcome; log] of commit;  [outcome; log] of commit_spec;  [outcome; log] of spec_exec;
               [wf_ids; wf_orders; flat];
               resolve on a fresh state: [outcome; yielded aids; remaining aids; min_order; start] ] *)
+(* one commit on the wire: [ [outcome; log] of commit; of commit_spec; of spec_exec; [wf_ids; wf_orders; flat] ] *)
+Definition round_out (mpaths spaths : list path) (wacts : list val) : option (list val) :=
+  olet acts := map_opt (get_action mpaths) wacts in
+  olet sacts := map_opt (get_action spaths) wacts in
+  let '(o, lg) := commit acts in
+  let '(so, slg) := commit_spec sacts in
+  let '(xo, xlg) := spec_exec sacts in
+  Some [VL [put_outcome o; VL (map put_event lg)];
+        VL [put_spec_outcome so; VL (map put_event slg)];
+        VL [put_spec_outcome xo; VL (map put_event xlg)];
+        VL [vbool (wf_ids acts); vbool (wf_orders acts); vbool (flat acts)]].
+
+(* several commits on ONE action state / configurator, one after the other: execute_actions creates its resolver
+   state afresh, so every commit is the commit of its own actions *)
+Definition commit_history (cfg : params) (rounds : list (list action)) : list (outcome * list event) :=
+  map (commit_with cfg) rounds.
+
 Definition run_C04 (v : val) : val :=
   ret_or_bad (
     match v with
-    | VL [VI mode; VL nodes; VL wacts] =>
+    | VL (VI mode :: VL nodes :: VL wacts :: more) =>
         olet mpaths := node_paths (if Z.eqb mode 1 then child_path else spec_child_path) nodes [[]] in
         olet spaths := node_paths spec_child_path nodes [[]] in
-        olet acts := map_opt (get_action mpaths) wacts in
+        olet main := round_out mpaths spaths wacts in
         olet sacts := map_opt (get_action spaths) wacts in
-        let '(o, lg) := commit acts in
-        let '(so, slg) := commit_spec sacts in
-        let '(xo, xlg) := spec_exec sacts in
         let '(ro, ry, _, rst) := resolve cfg_current cstate0 sacts in
-        Some (VL [VL [put_outcome o; VL (map put_event lg)];
-                  VL [put_spec_outcome so; VL (map put_event slg)];
-                  VL [put_spec_outcome xo; VL (map put_event xlg)];
-                  VL [vbool (wf_ids acts); vbool (wf_orders acts); vbool (flat acts)];
-                  VL [put_outcome ro; put_aids ry; put_aids (remaining rst);
-                      vopt VI (min_order rst); vN (start rst)]])
+        olet later := match more with
+                      | [] => Some []
+                      | [VL rounds] => map_opt (fun r => match r with
+                                                         | VL w => match round_out mpaths spaths w with Some l => Some (VL l) | None => None end
+                                                         | _ => None end) rounds
+                      | _ => None
+                      end in
+        Some (VL (main ++ [VL [put_outcome ro; put_aids ry; put_aids (remaining rst);
+                               vopt VI (min_order rst); vN (start rst)];
+                           VL later]))
     | _ => None
     end).
